@@ -24,3 +24,9 @@ def tasks(tier, seed):
         func("bt.core.SecurityBase.transact"),
         func("bt.core.StrategyBase.adjust"),
     ]
+
+
+def replay(o):
+    from pyvc.concrete import replay_scenario
+
+    return replay_scenario(o)
